@@ -518,6 +518,8 @@ struct ShuffleTables {
     mixed_steps: u64,
     multi_asset_steps: u64,
     trading_off_steps: u64,
+    twin_steps: u64,
+    twin_modify_steps: u64,
     distinct: Vec<u64>,
     content_checks: u64,
     replay_checks: u64,
@@ -539,6 +541,8 @@ impl ShuffleTables {
             mixed_steps: 0,
             multi_asset_steps: 0,
             trading_off_steps: 0,
+            twin_steps: 0,
+            twin_modify_steps: 0,
             distinct: Vec::new(),
             content_checks: 0,
             replay_checks: 0,
@@ -606,6 +610,8 @@ impl ShuffleTables {
         self.mixed_steps += o.mixed_steps;
         self.multi_asset_steps += o.multi_asset_steps;
         self.trading_off_steps += o.trading_off_steps;
+        self.twin_steps += o.twin_steps;
+        self.twin_modify_steps += o.twin_modify_steps;
         self.distinct.extend(o.distinct);
         self.content_checks += o.content_checks;
         self.replay_checks += o.replay_checks;
@@ -731,6 +737,33 @@ fn pair_step<E: SimEnv>(env: &mut E, xr: &mut Xoroshiro128StarStar, rng: &mut Sm
     Ok(took_effect)
 }
 
+/// A step whose batch re-prices several resting orders of one side to the *same* price next to a few new orders: the
+/// queue order at that price (and the key stamps in the snapshot text) then reveal the relative processing order of
+/// the modifications, which no time-stamp of the order records shows. Used on twin environments only.
+fn modify_step<E: SimEnv>(env: &mut E, xr: &mut Xoroshiro128StarStar, rng: &mut Sm, n: usize, ticks: &[u32]) -> Result<usize, String> {
+    let a = rng.below(E::ASSETS as u64) as usize;
+    let bid = rng.chance(0.5);
+    let mut pool: Vec<usize> = env.env_orders(a).iter().filter(|o| o.status == ACTIVE && o.bid == bid).map(|o| o.id).collect();
+    let target = ((if bid { rng.range(10, 40) } else { rng.range(60, 90) }) * ticks[a] as u64) as u32;
+    let k = pool.len().min(n.max(2) - 1).min(4);
+    let mut mods = 0;
+    for j in 0..n {
+        if j < k {
+            let i = rng.below(pool.len() as u64) as usize;
+            let id = pool.swap_remove(i);
+            env.modify(a, id, Some(target), None);
+            mods += 1;
+        } else {
+            let b = rng.below(E::ASSETS as u64) as usize;
+            let bd = rng.chance(0.5);
+            let kk = if bd { rng.range(10, 40) } else { rng.range(60, 90) };
+            env.place(b, bd, rng.range(1, 20) as u32, 1, Some((kk * ticks[b] as u64) as u32))?;
+        }
+    }
+    env.do_step(xr);
+    Ok(mods)
+}
+
 fn shuffle_worker<E: SimEnv>(seed: u64, work: &[(usize, u64)], t: &mut ShuffleTables, fails: &mut Vec<(String, String)>) {
     let assets = E::ASSETS;
     for (wi, (n, steps)) in work.iter().enumerate() {
@@ -743,9 +776,17 @@ fn shuffle_worker<E: SimEnv>(seed: u64, work: &[(usize, u64)], t: &mut ShuffleTa
             // depend on the trading flag either (the quotes used here never cross, so positions stay observable)
             let tmode = rng.below(6);
             let mut trading = tmode != 0;
-            let mut env = E::create(rng.below(1000), &ticks, step_size, trading);
+            let t0 = rng.below(1000);
+            let mut env = E::create(t0, &ticks, step_size, trading);
+            // a fifth of the environments have a twin that receives the same submissions and, at every step, a clone of
+            // the generator: same generator state + same batch must give the same schedule, whatever the instructions
+            // are (the twins' complete snapshot texts, incl. queue stamps, are compared after every step)
+            let mut twin: Option<E> = if rng.chance(0.2) { Some(E::create(t0, &ticks, step_size, trading)) } else { None };
             if tmode == 1 {
                 env.set_trading(false);
+                if let Some(tw) = twin.as_mut() {
+                    tw.set_trading(false);
+                }
                 trading = false;
             }
             let xseed = rng.next();
@@ -756,13 +797,41 @@ fn shuffle_worker<E: SimEnv>(seed: u64, work: &[(usize, u64)], t: &mut ShuffleTa
                 if tmode <= 2 && s > 0 && rng.chance(0.15) {
                     trading = !trading;
                     env.set_trading(trading);
+                    if let Some(tw) = twin.as_mut() {
+                        tw.set_trading(trading);
+                    }
                 }
                 if !trading {
                     t.trading_off_steps += 1;
                 }
                 let xr_before = xr.clone();
                 let content = rng.next();
-                match shuffle_step(&mut env, &mut xr, &mut rng, *n, mixed, content, &ticks) {
+                let rng_before = rng.clone();
+                let step_result = shuffle_step(&mut env, &mut xr, &mut rng, *n, mixed, content, &ticks);
+                let xr_after = xr.clone(); // the generator right after the recorded step (the twin part below steps again)
+                if let Some(tw) = twin.as_mut() {
+                    let (mut xr_t, mut rng_t) = (xr_before.clone(), rng_before.clone());
+                    let _ = shuffle_step(tw, &mut xr_t, &mut rng_t, *n, mixed, content, &ticks);
+                    t.twin_steps += 1;
+                    // then a step that re-prices several resting orders to one price, on both
+                    let (xr_m, rng_m) = (xr.clone(), rng.clone());
+                    let (mut xr_t, mut rng_t) = (xr_m.clone(), rng_m.clone());
+                    let ma = modify_step(&mut env, &mut xr, &mut rng, (*n).min(12), &ticks);
+                    let mb = modify_step(tw, &mut xr_t, &mut rng_t, (*n).min(12), &ticks);
+                    if let (Ok(k), Ok(_)) = (&ma, &mb) {
+                        if *k >= 2 {
+                            t.twin_modify_steps += 1;
+                        }
+                    }
+                    for a in 0..assets {
+                        if env.book(a).to_json(false) != tw.book(a).to_json(false) {
+                            fails.push(("same_state_different_permutation".into(), format!("n={} two environments with the same history, the same batch and clones of one generator ended a step in different states (asset {}): orders {:?} vs {:?}, queues {:?} vs {:?}", n, a, env.env_orders(a).iter().rev().take(6).collect::<Vec<_>>(), tw.env_orders(a).iter().rev().take(6).collect::<Vec<_>>(), env.book(a).queue(), tw.book(a).queue())));
+                            twin = None;
+                            break;
+                        }
+                    }
+                }
+                match step_result {
                     Ok((pos, kind_pair)) => {
                         t.record(&pos);
                         if let Some(cf) = kind_pair {
@@ -790,7 +859,7 @@ fn shuffle_worker<E: SimEnv>(seed: u64, work: &[(usize, u64)], t: &mut ShuffleTa
                                         fails.push(("schedule_depends_on_contents".into(), format!("n={} same generator state, different instruction contents: positions {:?} vs {:?}", n, pos, pos2)));
                                     }
                                     use rand::RngCore;
-                                    let (mut a, mut b) = (xr.clone(), xr2.clone());
+                                    let (mut a, mut b) = (xr_after.clone(), xr2.clone());
                                     if a.next_u64() != b.next_u64() {
                                         fails.push(("generator_state_depends_on_contents".into(), format!("n={}", n)));
                                     }
@@ -819,6 +888,10 @@ fn shuffle_worker<E: SimEnv>(seed: u64, work: &[(usize, u64)], t: &mut ShuffleTa
             // same-step dependent pairs (only for small and medium batches; one pair per step)
             if *n >= 2 && *n <= 16 {
                 for q in 0..4 {
+                    if let Some(tw) = twin.as_mut() {
+                        let (mut xr_t, mut rng_t) = (xr.clone(), rng.clone());
+                        let _ = pair_step(tw, &mut xr_t, &mut rng_t, *n, q % 2 == 1, &ticks);
+                    }
                     match pair_step(&mut env, &mut xr, &mut rng, *n, q % 2 == 1, &ticks) {
                         Ok(effect) => {
                             let slot = if q % 2 == 1 { 1 } else { 0 };
@@ -1001,6 +1074,8 @@ pub fn c15(ctx: &Ctx) -> i32 {
         ("mixed_steps", mixed_steps, 10_000),
         ("multi_asset_steps", ts[1].steps, 100_000),
         ("trading_off_steps", ts[0].trading_off_steps + ts[1].trading_off_steps, 100_000),
+        ("twin_steps", ts[0].twin_steps + ts[1].twin_steps, 100_000),
+        ("twin_steps_with_several_modifications", ts[0].twin_modify_steps + ts[1].twin_modify_steps, 20_000),
         ("content_independence_checks", content_checks, 1000),
         ("replay_checks", replay_checks, 1000),
     ]));
@@ -1008,7 +1083,7 @@ pub fn c15(ctx: &Ctx) -> i32 {
     let cov = json!({
         "evaluations": steps,
         "distinct_nontrivial": d.len(),
-        "rule": "cases = seeded simulation steps (fresh Xoroshiro128** seed per 12 steps) whose n queued instructions all have a visible processed position (rank of the time-stamp within the batch: arrival time of new orders, end time of cancellations of active orders; contents vary independently of the shuffle generator; about a third of the steps run with trading disabled, the exact twin checks always compare with a trading-enabled twin); batch sizes 2..24, 32, 48, 64; separate tables for the single- and the multi-asset environment; distinct = distinct position maps (item -> processed position) observed; non-trivial = every recorded step (n >= 2)",
+        "rule": "cases = seeded simulation steps (fresh Xoroshiro128** seed per 12 steps) whose n queued instructions all have a visible processed position (rank of the time-stamp within the batch: arrival time of new orders, end time of cancellations of active orders; contents vary independently of the shuffle generator; about a third of the steps run with trading disabled, the exact twin checks always compare with a trading-enabled twin; a fifth of the environments run next to a twin with the same history, the same batches - including steps that re-price several resting orders to one price - and clones of the generator, and must end every step with identical snapshot texts); batch sizes 2..24, 32, 48, 64; separate tables for the single- and the multi-asset environment; distinct = distinct position maps (item -> processed position) observed; non-trivial = every recorded step (n >= 2)",
         "samples": sample_perm,
         "tables": worst,
         "cells_tested": cells,
@@ -1017,6 +1092,8 @@ pub fn c15(ctx: &Ctx) -> i32 {
         "mixed_kind_steps": mixed_steps,
         "multi_asset_steps": ts[1].steps,
         "trading_disabled_steps": ts[0].trading_off_steps + ts[1].trading_off_steps,
+        "twin_environment_steps": ts[0].twin_steps + ts[1].twin_steps,
+        "twin_steps_with_several_modifications_to_one_price": ts[0].twin_modify_steps + ts[1].twin_modify_steps,
         "content_independence_checks": content_checks,
         "replay_determinism_checks": replay_checks,
     });
